@@ -335,3 +335,59 @@ Proof.
     - intros k. cbn. lia. }
   cbn. lia.
 Qed.
+
+(* ---------- call sites judged by their own selections; reported tables ---------- *)
+Lemma sel_count_cons sel r k : sel_count (sel :: r) k = cocc sel k + sel_count r k.
+Proof. reflexivity. Qed.
+
+Lemma last_cons_self {A} (x : A) l : last (x :: l) x = last l x.
+Proof. destruct l; reflexivity. Qed.
+
+Lemma derived_last : forall sels s k,
+  get (last (map snd (derived_obs s sels)) s) k = get s k + sel_count sels k.
+Proof.
+  induction sels as [|sel r IH]; intros s k.
+  - cbn. lia.
+  - cbn [derived_obs map snd].
+    rewrite (last_cons_indep _ _ s (fold_left incr sel s)), last_cons_self, IH, get_fold_incr, sel_count_cons. lia.
+Qed.
+
+Theorem selection_history_fair L caps sels : NoDup L ->
+  valid_runb [] (map (fun c => (L, c)) caps) (derived_obs [] sels) = true ->
+  forall a b, In a L -> In b L -> sel_count sels a <= S (sel_count sels b).
+Proof.
+  intros Hnd Hv a b Ha Hb.
+  pose proof (checked_history_fair L caps (derived_obs [] sels) Hnd Hv a b Ha Hb) as H.
+  rewrite !derived_last in H. cbn [get] in H. lia.
+Qed.
+
+Lemma sel_count_notin : forall sels k, ~ In k (concat sels) -> sel_count sels k = 0.
+Proof.
+  induction sels as [|sel r IH]; intros k Hn; [reflexivity|].
+  rewrite sel_count_cons. cbn [concat] in Hn. rewrite IH by (intro; apply Hn, in_or_app; right; assumption).
+  assert (cocc sel k = 0) as ->; [|reflexivity].
+  apply count_occ_not_In. intro; apply Hn, in_or_app; left; assumption.
+Qed.
+
+Theorem reportb_sound sels rep : reportb sels rep = true ->
+  forall k, get rep k = list_sum (map (fun sel => count_occ Nat.eq_dec sel k) sels).
+Proof.
+  intros H k. change (get rep k = sel_count sels k).
+  unfold reportb in H. rewrite forallb_forall in H.
+  destruct (in_dec Nat.eq_dec k (map fst rep ++ concat sels)) as [Hi|Hn].
+  - apply Nat.eqb_eq, H, Hi.
+  - rewrite get_notin by (intro; apply Hn, in_or_app; left; assumption).
+    symmetry. apply sel_count_notin. intro; apply Hn, in_or_app; right; assumption.
+Qed.
+
+(* non-vacuity: a call site that forgets its counts between batches (every batch served from an empty table: the same first
+   two candidates each time) is rejected by the derived history, while the faithful history is accepted; a merged report is
+   rejected *)
+Example ex_derived :
+  let L := [0; 1; 2; 3; 4] in
+  let ops := map (fun c => (L, c)) [2; 2; 2]%Z in
+  valid_runb [] ops (derived_obs [] [[0; 1]; [2; 3]; [4; 0]]) = true /\
+  valid_runb [] ops (derived_obs [] [[0; 1]; [0; 1]; [0; 1]]) = false /\
+  reportb [[0; 1]; [2; 3]; [4; 0]] [(0, 2); (1, 1); (2, 1); (3, 1); (4, 1)] = true /\
+  reportb [[0; 1]; [2; 3]; [4; 0]] [(0, 3); (1, 2); (2, 1); (3, 1); (4, 1)] = false.
+Proof. vm_compute. auto. Qed.
